@@ -89,6 +89,16 @@ def cells(tier):
         for strict in (True, False):
             out.append(mk(PID, tr, strict, 'string', T=T))
             out.append(mk(PID, tr, strict, 'file', T=T, perm=[3, 1, 0, 2], mids=['100', '20', '3']))
+    # a message may carry the same messageID as the roCreate (IDs are not guaranteed unique): it is still merged
+    for pair in (('roStoryAppend', 'roStoryMove'), ('roStoryDelete', 'roDelete')):
+        for strict in (True, False):
+            out.append(mk(PID, pair, strict, 'string', T=T, mids=['1', '20'], tag='same-id-as-roCreate'))
+            out.append(mk(PID, pair, strict, 'file', T=T, mids=['20', '1'], perm=[1, 2, 0], tag='same-id-as-roCreate'))
+    # roReplace among other messages
+    for tr in (('roMetadataReplace', 'roReplace', 'roStoryAppend'), ('roStoryMove', 'roReplace', 'roDelete')):
+        for strict in (True, False):
+            out.append(mk(PID, tr, strict, 'string', T=T, mids=['9', '10', '100']))
+            out.append(mk(PID, tr, strict, 's3', T=T, mids=['100', '10', '9'], perm=[2, 0, 3, 1]))
     for q in QUADS if tier == 'thorough' else QUADS[:1]:
         for strict in (True, False):
             out.append(mk(PID, q, strict, 'string', T=2 * T))
